@@ -202,3 +202,22 @@ func VerifSessionStateCerts(ss *SessionState) (peer [][]byte, chains [][][]byte)
 func VerifFinishedVerifyData(c *Conn) (client, server []byte) {
 	return append([]byte(nil), c.clientFinished[:]...), append([]byte(nil), c.serverFinished[:]...)
 }
+
+// VerifWriteTLS13PaddedRecord makes c send one TLS 1.3 application-data record whose inner plaintext is
+// data, the content type and pad zero bytes (RFC 8446 5.4 record padding, as OpenSSL's -record_padding
+// produces), protected with the connection's real key.
+func VerifWriteTLS13PaddedRecord(c *Conn, data []byte, pad int) error {
+	c.out.Lock()
+	defer c.out.Unlock()
+	a, ok := c.out.cipher.(aead)
+	if !ok || c.vers != VersionTLS13 {
+		return errors.New("verif: not a TLS 1.3 AEAD connection")
+	}
+	inner := append(append(append([]byte(nil), data...), byte(recordTypeApplicationData)), make([]byte, pad)...)
+	n := len(inner) + a.Overhead()
+	hdr := []byte{byte(recordTypeApplicationData), 3, 3, byte(n >> 8), byte(n)}
+	rec := a.Seal(hdr[:5:5], c.out.seq[:], inner, hdr[:5])
+	c.out.incSeq()
+	_, err := c.write(rec)
+	return err
+}
